@@ -84,6 +84,19 @@ add("C06",
     "duals, not proved in general (stretch goal of DESIGN §5 C06.3 not done). _spaced_solutions is judged only through its results.",
     "Coq proof (guarded enumeration, running min/max) + LP-duality certificate checker proved sound, run by vm_compute on real outputs", "DESIGN.md §5 C06")
 
+add("C16",
+    "(F, over R, every dimension) the closed form of the simplex matrix satisfies the recursion of the code and the recursion determines it uniquely; its rows form a regular "
+    "simplex with unit edges; entries are non-negative with squares equal to the rational closed form T2q; the code's equidistance assertion always holds. (F, Q) the "
+    "barycentric-to-cartesian map is affine; chromatic reduction is scale invariant. (F, over R) n-sphere round trip s2c(c2s x) = x for every point of every dimension >= 2 "
+    "(origin, axes, negative coordinates), radius = Euclidean norm, polar angles in [0,pi], azimuth in [0,2pi]. Tie: the implementation's matrix (n=2..12) is compared "
+    "entry-wise (squares, sign) with T2q and its row distances with 1 in the Coq VM; b2c / c2b / dim-reduction outputs are re-derived exactly from that matrix (c2b through "
+    "the defining inverse relations and the row sums = L1); n-sphere outputs are checked through the defining relations (radius^2, ranges, zero-tail convention, "
+    "reconstruction) in both directions.",
+    TRUST + "Axioms: the standard library's real-number axioms (ClassicalDedekindReals.sig_forall_dec, sig_not_dec, FunctionalExtensionality.functional_extensionality_dep) "
+    "and Classical_Prop.classic (via stdlib acos), exactly as Print Assumptions reports for Props/C16.v. numpy cos/sin of the angles are supplied as data (checked to lie on "
+    "the unit circle with the right quadrant signs); np.linalg.inv is an oracle checked through its defining products; tolerance 1e-9.",
+    "Coq proof over R (closed form = recursion, regular simplex, spherical round trip) + rational shadow evaluated by vm_compute on real outputs", "DESIGN.md §5 C16")
+
 NOT_APPLICABLE = []
 ALL = ["C%02d" % i for i in range(1, 21)]
 
